@@ -53,7 +53,7 @@ static bool inv(C& c)
         return false;
     if (!vf_wf_otab(c.m_lfu_list, n, [](const size_t& a, const size_t& b) { return a < b; }))
         return false;
-    if (c.m_used_size > n || M.m_size != c.m_used_size || c.m_lfu_list.m_size != c.m_used_size || M.m_reserved < n)
+    if (c.m_used_size > n || M.m_size != c.m_used_size || c.m_lfu_list.m_size != c.m_used_size || !M.guaranteed(n))
         return false;
     if (c.m_open_list_end.l != &L || c.m_open_list_end.i != vf_list_at(L, c.m_used_size, n))
         return false;
